@@ -16,7 +16,7 @@ PROP = "C08"
 LEVEL = "exploration"
 SHARDS = {"quick": 8, "thorough": 16}
 TIMEOUT = {"quick": 900, "thorough": 7200}
-REQUIRED = {"request_size": 50, "kernel_request_size": 5, "prng_reset": 50, "tape_replay": 50, "bit_variation": 5, "no_repeat": 5}
+REQUIRED = {"request_size": 50, "kernel_request_size": 5, "prng_reset": 50, "tape_replay": 50, "bit_variation": 5, "no_repeat": 5, "mixed_history": 20}
 ANCHORS = ['bip39:mnemonic_from_entropy_bits', 'base_wallet:BaseWallet.new_wallet', 'base_wallet:BaseWallet.from_entropy_bits']
 RULE = ("histories of consecutive new_wallet / mnemonic_from_entropy_bits calls over all five lengths in one process, "
         "interleaved with random.seed / random.random noise and wall-clock changes; four observers: in-process request size "
@@ -249,6 +249,33 @@ def judge_variation(ctx, L, K, apis):
     ctx.extra["fresh_entropies_decoded"] = ctx.extra.get("fresh_entropies_decoded", 0) + K
 
 
+def judge_mixed_history(ctx, case):
+    """A history of fresh mnemonics of MIXED lengths in one process: no two of them may share any 8-byte window of
+    entropy (a pool / buffer that hands the same OS bytes out twice shows up here even when whole entropies differ),
+    and every call must still pull its own bytes from the OS."""
+    seen = {}
+    bad = []
+    short = 0
+    for step, (api, L) in enumerate(case["calls"]):
+        if step % 5 == 2:
+            random.seed(7)
+        with inject.EntropyTap("observe") as tap:
+            mn = _call(api, L)
+        e, ok = _decode(mn)
+        if tap.requests and tap.total < ENT[L] // 8:
+            short += 1
+        for off in range(0, len(e) - 7):
+            w = e[off:off + 8]
+            if w in seen and seen[w] != step:
+                bad.append(("window_reused", "step %d offset %d" % (seen[w], off), "step %d (%s/%d): %s" % (step, api, L, w.hex())))
+                break
+            seen[w] = step
+    if short:
+        bad.append(("calls_served_without_enough_os_bytes", 0, short))
+    return ctx.judge("mixed_history", not bad, case, "pairwise disjoint entropy windows", bad[:3], cls="mixed|%d" % len(case["calls"]),
+                     mech="C08.mixed_history." + (bad[0][0] if bad else ""))
+
+
 def run(ctx):
     rnd = ctx.rnd
     apis = ["new_wallet", "bits", "from_entropy_bits"]
@@ -274,6 +301,14 @@ def run(ctx):
             t1, ttag = rnd.getrandbits(8 * need).to_bytes(need, "big"), "random"
         t2 = bytes([t1[0] ^ 0x80]) + t1[1:] if j % 2 else t1[:-1] + bytes([t1[-1] ^ 1])
         judge_tape(ctx, {"api": apis[j % 3], "words": L, "tape1": t1, "tape2": t2, "ttag": ttag})
+    for _ in range(ctx.scale(40, 2000)):
+        n_calls = rnd.choice([4, 6, 9, 17, 33])
+        calls = [(rnd.choice(["bits", "bits", "new_wallet"]), rnd.choice(LENGTHS)) for _ in range(n_calls)]
+        if rnd.random() < 0.5:
+            # shapes that drain power-of-two sized buffers exactly: 24,24 / 12x4 / 12,12,24 / 24,12,12 ...
+            pat = rnd.choice([[24, 24, 24, 24], [12, 12, 12, 12, 12], [12, 12, 24, 24], [24, 12, 12, 12], [18, 18, 18, 18, 18, 18, 18, 18, 18]])
+            calls = [("bits", L) for L in pat] + calls[:3]
+        judge_mixed_history(ctx, {"calls": calls})
     K = 96 if not ctx.thorough else 2000
     for L in LENGTHS:
         judge_variation(ctx, L, K, ["bits", "bits", "bits", "new_wallet"] if not ctx.thorough else ["bits"] * 9 + ["new_wallet"])
@@ -286,6 +321,9 @@ def replay(ctx, monitor, case):
         judge_prng_reset(ctx, case)
     elif monitor == "tape_replay":
         judge_tape(ctx, case)
+    elif monitor == "mixed_history":
+        case["calls"] = [tuple(c) for c in case["calls"]]
+        judge_mixed_history(ctx, case)
     elif monitor == "kernel_request_size":
         judge_kernel(ctx, 2)
     else:
